@@ -201,7 +201,11 @@ def _resolve_fname(example_fname='!data/example.gb'):
                     with tempfile.TemporaryDirectory() as tmpdir:
                         shutil.unpack_archive(fname, tmpdir, archive)
                         globexpr = os.path.join(tmpdir, '**/*.*')
-                        return new_reader(globexpr, *args, **kw)
+                        res = new_reader(globexpr, *args, **kw)
+                        if not isinstance(res, (BioBasket, FeatureList)):
+                            # iter_ was wrapped: the generator is lazy, read the files before the directory is removed
+                            res = iter(list(res))
+                        return res
                 elif archive == 'gz' or fname.endswith('.gz'):  # decompress file
                     import gzip
                     with gzip.open(fname) as f:
